@@ -11,6 +11,8 @@ ASSUMPTIONS = [
     "fails for net.Conn/websocket.Conn (flag c_dlc), in which case Receive after Close fails at once instead of draining buffered packets",
     "bufio.Writer's error is sticky, so after the first failed flush EVERY later Send fails (stronger than 'the next one'); observed on the real code",
     "timer firing is a model event enabled in every state; that an armed timer eventually fires is Go's time.AfterFunc contract",
+    "buffer ownership (the pooled encode buffer must not be reused while its bytes are in the carrier) is outside the model: "
+    "checked at run time by the gated-carrier scenario (direct c19_intact) and the race build",
 ]
 
 
@@ -36,12 +38,16 @@ def run(ck):
             c03.classify(ck, rpath, rlines, "Transport/BaseConn.v ~ transport.BaseConn (race build)")
             ck.extra["race_build"] = True
         ck.coqchk(["GM.Props.C19"])
-    ck.evaluations = ck.stats.get("model_cases", 0) + ck.stats.get("after_close_checks", 0) + ck.stats.get("close_flushes_checks", 0)
+    ck.evaluations = (ck.stats.get("model_cases", 0) + ck.stats.get("after_close_checks", 0) + ck.stats.get("close_flushes_checks", 0) +
+                      ck.stats.get("close_closes_carrier_checks", 0) + ck.stats.get("intact_checks", 0) + ck.stats.get("loopback_runs", 0))
     ck.distinct = ck.stats.get("model_distinct", 0)
     ck.rule = ("scripts: sends/receives, then the event that kills the connection (Close, carrier write failure, unencodable packet, receive "
                "error), then buffered/flushed sends, timer waits, receives, second Close — compared step by step with cn_step; concurrent: "
                "1..16 sender goroutines x 1..12 packets (some 3-6 KB), Close triggered at a seeded accepted-send count or carrier write, "
                "failures none/write@k/read@k/close/deadline@k/read-timeout expiry, flush delays 0,1,2,5,50 ms; wire parsed back (by the "
                "harness and by the model's dec_all): whole frames only, each a sent packet, per-sender order, nothing accepted before Close "
-               "missing, dead connection: flushed send fails, buffered send fails after the delay, receives end in an error, nothing hangs. "
+               "missing, dead connection: flushed send fails, buffered send fails after the delay, receives end in an error, nothing hangs; "
+               "Close must call carrier.Close even when its flush fails (write fault injected right before Close / after a failed timer flush, "
+               "with a Receive pending); bytes held in a gated carrier Write must stay intact while the same connection receives and another "
+               "sends large packets (shared buffer pool, GOMAXPROCS(1)); real TCP and WebSocket pairs (8 runs quick, 60 thorough). "
                "distinct_nontrivial = distinct (operation sequence, result sequence) classes + distinct wire shapes")
